@@ -139,6 +139,13 @@ def run(rep):
                 ok = (a == s_) or (name in soft_fns and a <= s_)
                 rep.check(ok, "C04-R3", b.def_, "mirror:%s" % sv.split("::")[1], "the connection-side mirror and the service-side set must change together (path has %d %s, %d %s)" % (a, cn, s_, sv), line=b.span, detail={"events": evs})
     rep.floor("C04-R3", "mirror-mutating paths", n, 9)
+    # the three disconnect helpers must reach the service-side removal for the given service and connection
+    for (h, sfn) in [("remove_event_subscription", "Service::unsubscribe_event"), ("remove_all_events_subscription", "Service::unsubscribe_all_events"), ("remove_subscription", "Service::unsubscribe")]:
+        b = M[h]
+        cs = [c for c in b.calls if mir.short_fn(c.callee) == sfn]
+        ok = len(cs) == 1 and all_match(b.describe(cs[0].args[0]), "^" + (SVC % ("svc_cookie", "svc_cookie"))) and any_match(b.describe(cs[0].args[-1]), r"^conn_id$") \
+            and bool(broker.has_guard(b, cs[0].bb, r"^Some=discr\(self\.svc_uuids\[svc_cookie\]\)$")) and len(broker.has_guard(b, cs[0].bb, r".")) == 1
+        rep.check(ok, "C04-R3", b.def_, "teardown-reaches:%s" % sfn, "%s must remove the disconnecting connection from the service-side set of every service that still exists" % h, line=b.span, detail={"sites": len(cs)})
     # same service / same event on both sides
     for (h, cookie) in [("subscribe_event", "req.service_cookie"), ("unsubscribe_event", "req.service_cookie"), ("subscribe_all_events", "req.service_cookie"), ("unsubscribe_all_events", "req.service_cookie"),
                         ("subscribe_service", "req.service_cookie"), ("unsubscribe_service", "req.service_cookie")]:
